@@ -73,7 +73,8 @@ Inductive wop :=
 | WOpen (i : nat) (pass : bool) (ttl : N)    (* instance i .Open(passphrase right?, WithUnlockExpiry ttl; 0 = default) *)
 | WClose (i : nat)                           (* instance i .Close() *)
 | WTick (dt : N)                             (* time passes *)
-| WOp (i : nat) (t : tok) (k : okind).       (* instance i .<k>(token t, ...) *)
+| WOp (i : nat) (t : tok) (k : okind)        (* instance i .<k>(token t, ...) *)
+| WUpdate (u : user).                        (* wallet.UpdateProfile with a new passphrase *)
 
 Inductive wout :=
 | RDone | RTok (t : tok) | RBool (b : bool)
@@ -281,6 +282,12 @@ Definition step (v : variant) (st : wstate) (o : wop) : wstate * wout :=
           else (st, RBool false)
       end
   | WTick dt => (upd_now st (now st + dt), RDone)
+  | WUpdate u =>
+      (* UpdateProfile: the stored profile gets new KMS options (a new master lock under the new passphrase); its ID
+         (the content store), the sessions, the store manager entry and every instance made before are what they
+         were: no token is revoked, none is granted.  (Which passphrase opens which instance is the harness's
+         reading of WOpen's `pass`: an instance keeps the profile it was made with.) *)
+      if existsb (N.eqb u) (profiles st) then (st, RDone) else (st, RErr)
   | WOp i t k =>
       match nth_error (insts st) i with
       | None => (st, RErr)
